@@ -22,6 +22,18 @@ INT_RANGES = {"U8": (0, 2**8 - 1), "U16": (0, 2**16 - 1), "U32": (0, 2**32 - 1),
               "I8": (-2**7, 2**7 - 1), "I16": (-2**15, 2**15 - 1), "I32": (-2**31, 2**31 - 1), "I64": (-2**63, 2**63 - 1)}
 
 
+# which exit-code constant belongs to which diverging error function (read from error_printer/mod.rs and the must_err tests; one line per rule)
+RULE_CODE = {
+    "complex_not_found": "COMPLEX_NOT_FOUND", "variable_in_if_not_found": "MISSING_ENUMERATOR", "recursive_type": "RECURSIVE_TYPE", "enum_has_bitwise_and": "ENUM_HAS_BITWISE_AND",
+    "flag_used_as_equals_or_not_equals": "FLAG_HAS_EQUALS", "object_has_no_versions": "NO_VERSIONS", "incorrect_opcode_for_message": "INCORRECT_OPCODE_FOR_MESSAGE",
+    "invalid_self_size_position": "INVALID_SELF_SIZE", "invalid_definer_value": "INVALID_DEFINER_VALUE", "duplicate_definer_value": "DUPLICATE_DEFINER_VALUES",
+    "invalid_integer_type": "INVALID_INTEGER_TYPE", "non_matching_if_statement_variables": "NON_MATCHING_IF_VARIABLES", "unsupported_upcast": "UNSUPPORTED_UPCAST",
+    "overlapping_versions": "OVERLAPPING_VERSIONS", "object_has_both_versions": "BOTH_LOGIN_AND_WORLD_VERSIONS", "duplicate_field_names": "DUPLICATE_FIELD_NAMES",
+    "opcode_has_incorrect_name": "OPCODE_HAS_INCORRECT_NAME", "message_not_in_index": "MESSAGE_NOT_IN_INDEX", "type_is_upcast_to_same": "TYPE_IS_UPCAST_TO_SAME",
+    "flag_with_signed_type": "FLAG_WITH_SIGNED_TYPE", "definer_with_invalid_value": "DEFINER_WITH_INVALID_VALUE", "version_tags_overlap": "VERSION_TAGS_OVERLAP",
+}
+
+
 def check_codes(ctx, F):
     consts = {}
     for p in F.paths("const"):
@@ -55,6 +67,11 @@ def check_codes(ctx, F):
             ctx.violate("err.codes", f"{fn['name']}|code", f"{fn['path']} passes {codes} to wowm_exit; exactly one of the exit-code constants is required", fn["file"], fn["line"])
         else:
             used.setdefault(codes[0], []).append(fn["name"])
+            want = RULE_CODE.get(fn["name"])
+            if want is None:
+                ctx.violate("err.codes", f"{fn['name']}|untabled", f"{fn['path']} is an error function without an entry in the rule/exit-code table of the checker — review", fn["file"], fn["line"])
+            elif codes[0].split("::")[-1] != want:
+                ctx.violate("err.codes", f"{fn['name']}|rule-code", f"{fn['path']} stops the generator with {codes[0].split('::')[-1]}, the exit status of another rule; its own is {want}", fn["file"], fn["line"])
     for p in consts:
         if p not in used:
             ctx.violate("err.codes", f"{p.split('::')[-1]}|unused", f"exit code {p.split('::')[-1]} is never passed to wowm_exit: its rule cannot be reported")
